@@ -6,6 +6,9 @@ MC   exhaustive (2 clients quick, 3 clients thorough; select and thread variant)
      missing), Filtered, RefCount, CursorOK, DeviceOpen, LossOnlyWhenFull, OnlyBlockedLose
 GEN  TLC random walks through ProxyQueue (Connect, ServiceReq, Disconnect, Tick, Read; a client that does not read is
      stalled) + seeded long schedules with stalls, bursts and service changes
+FLOW schedules with a client that misbehaves while frames flow (silent in the middle of a message for more frames than there
+     are buffers, never connects, leaves in the middle of a frame written to it ...): TLC walks through spec/ProxyFlow.tla (the
+     composition with C19's connection layer) + directed cases; the full set runs in C19
 TV   every schedule is executed step by step against the real zvbid on the synthetic device (select variant and
      acquisition-thread variant) with clients through the real client library and raw-socket clients; the daemon's
      action trace and every frame each client received (timestamp, line ids; payload compared with the device's) are
@@ -23,11 +26,14 @@ MANIFEST = dict(
               "and seeded schedules (tick, read, stall, service request, disconnect, bursts) are executed against the real daemon on a "
               "synthetic capture device whose clock the harness owns, with clients through the real client library and raw sockets; the "
               "daemon's hook trace and every frame received by every client are validated step by step against the spec by TLC",
-    text="TLC explores all interleavings of connect, service change, disconnect, capture, per-client send and read for 2-3 clients, 2 "
+    text="TLC explores all interleavings of connect, service change, disconnect, capture, per-client send and read - and of messages received "
+         "in part, refused connects and requests that leave the data path alone - for 2-3 clients, 2 "
          "services, 2-3 queue buffers and 1-2 frames of socket capacity: what a client reads is exactly the sequence of frames captured "
-         "while it was subscribed (minus frames it lost while blocked with the queue full and frames queued at its own service change), "
-         "each with exactly the lines of its granted services; reference counts equal the number of cursors; only blocked clients lose "
-         "frames; the device is open for exactly the union of granted services. The real daemon (both variants) executes the schedules; "
+         "while it was subscribed (minus frames it lost while blocked or silent in the middle of a message with the queue full, and frames "
+         "queued at its own service change), "
+         "each with exactly the lines of its granted services; reference counts equal the number of cursors; only blocked or silent clients "
+         "lose frames; a buffer for the next frame is always found; a client's steps leave the other clients' frames alone; "
+         "the device is open for exactly the union of granted services. The real daemon (both variants) executes the schedules; "
          "TLC accepts the recorded trace and the clients' frames only if every step and every state dump is a step of the specification.",
     note="Bounded: 2-3 clients, 3-4 frames in MC; real runs are sampled (seeded). The harness serialises stimuli (one at a time, daemon "
          "quiescent in between) except for bursts of frames; races between the acquisition thread and the main loop are covered by the "
@@ -38,6 +44,12 @@ MANIFEST = dict(
 NAME2MASK = dict(ttx=proxy.VBI_SLICED_TELETEXT_B, vps=proxy.VBI_SLICED_VPS, cc=proxy.VBI_SLICED_CAPTION_625, wss=proxy.VBI_SLICED_WSS_625,
                  x=0x00000100)      # x: a service the synthetic device does not have (VBI_SLICED_VBI_525 region bit)
 ID2NAME = {proxy.VBI_SLICED_TELETEXT_B: "ttx", proxy.VBI_SLICED_VPS: "vps", proxy.VBI_SLICED_CAPTION_625: "cc", proxy.VBI_SLICED_WSS_625: "wss"}
+
+
+REPLY_OF = {MSG["CONNECT_REQ"]: ("CONNECT_CNF", "CONNECT_REJ"), MSG["SERVICE_REQ"]: ("SERVICE_CNF", "SERVICE_REJ"),
+            MSG["CHN_TOKEN_REQ"]: ("CHN_TOKEN_CNF",), MSG["CHN_NOTIFY_REQ"]: ("CHN_NOTIFY_CNF",),
+            MSG["CHN_SUSPEND_REQ"]: ("CHN_SUSPEND_CNF", "CHN_SUSPEND_REJ"), MSG["CHN_IOCTL_REQ"]: ("CHN_IOCTL_CNF", "CHN_IOCTL_REJ"),
+            MSG["DAEMON_PID_REQ"]: ("DAEMON_PID_CNF",)}
 
 
 def mask_of(names):
@@ -52,9 +64,9 @@ def mask_of(names):
 class Run:
     """one daemon process with library and raw clients; records what the clients received"""
 
-    def __init__(self, lay, thread, variant="asan"):
+    def __init__(self, lay, thread, variant="asan", buffers=1):
         self.lay = lay
-        self.ses = proxy.Session(lay, thread=thread, buffers=1, sndbuf=1, maxclients=20, variant=variant,
+        self.ses = proxy.Session(lay, thread=thread, buffers=buffers, sndbuf=1, maxclients=20, variant=variant,
                                  send_delay_us=300 if thread else None)
         self.d = self.ses.d
         self.lib = proxy.LibClients(self.d, variant)
@@ -114,10 +126,34 @@ class Run:
         c["nread"] += 1
 
     # ---- steps
-    def connect(self, k, kind, names, strict):
+    def accept(self, k):
+        """a raw connection that does not send its CONNECT_REQ (yet): it counts for the number of buffers, nothing else"""
         if self.conn_alive(k):
             return False
-        mask = mask_of(names)
+        rc = self.ses.connect("r%d" % k)
+        c = dict(kind="raw", raw=rc, fd=rc.fd, acc=rc.acc, nread=0, svc_at=rc.acc, wait=True)
+        self.cl[k] = c
+        self.cl_all.append(c)
+        return True
+
+    def connect(self, k, kind, names, strict, reject=False):
+        mask = 0x100 if reject else mask_of(names)
+        if self.conn_alive(k) and self.cl[k].get("wait"):
+            # CONNECT_REQ on a connection accepted earlier (the rest of it, if a part is already out)
+            c = self.cl[k]
+            if mask and not (mask & proxy.SIM_SERVICES) and not reject:
+                return False
+            self.send_message(k, self.lay.connect_req(services=mask, strict=strict - 1, buffers=1, scanning=625))
+            c["wait"] = False
+            if self._dropped(c) is not None:        # refused: the daemon has closed the connection
+                c["raw"].close()
+                c["gone"] = True
+            return True
+        if self.conn_alive(k):
+            return False
+        if reject:
+            self.accept(k)
+            return self.connect(k, "raw", names, strict, reject=True)
         if mask and not (mask & proxy.SIM_SERVICES):
             return False                            # would be rejected (C19)
         if kind == "lib":
@@ -141,12 +177,85 @@ class Run:
         self.cl_all.append(c)
         return True
 
+    # ---- faulty clients (raw): a message in part, the rest of it, other requests, refused messages
+    def stuck(self, k):
+        c = self.cl.get(k)
+        return bool(c and c.get("pend"))
+
+    def partial(self, k, msg, upto):
+        """the first `upto` bytes of message `msg` are out (then silence); more bytes of the same message later"""
+        if not self.conn_alive(k) or self.cl[k]["kind"] != "raw":
+            return False
+        c = self.cl[k]
+        if c.get("pend"):
+            msg, sent = c["pend"]
+        else:
+            sent = 0
+            if self.blocked(c):
+                self.read_all(k)            # the daemon takes nothing from a client while its write to it is stuck
+        upto = min(upto, len(msg) - 1)
+        if upto <= sent:
+            return False
+        c["raw"].send(bytes(msg[sent:upto]))
+        c["pend"] = (msg, upto)
+        return True
+
+    def send_message(self, k, msg):
+        """complete message from raw client k (the rest of it, if a part is out already); the client then reads up to
+        the reply (frames in front of it are taken), if a message of that type has one"""
+        c = self.cl[k]
+        sent = 0
+        if c.get("pend"):
+            msg, sent = c["pend"]
+            c["pend"] = None
+        elif self.blocked(c):
+            self.read_all(k)
+        reply = REPLY_OF.get(proxy.struct.unpack_from(">II", msg, 0)[1]) if len(msg) >= 8 else None
+        self.ses.send_msg(c["raw"], msg, sent)
+        while reply and self._dropped(c) is None:
+            m = c["raw"].read_one(reply)
+            if m is None or m["name"] in reply:
+                break
+            if m["t"] == MSG["SLICED_IND"]:
+                self.record_read(c, m["ts"], m["lines"])
+        return True
+
+    def other(self, k, msg):
+        """a request that leaves the data path alone (token, notify without flush, ioctl, suspend, reclaim confirmation)"""
+        if not self.conn_alive(k) or self.cl[k]["kind"] != "raw":
+            return False
+        return self.send_message(k, msg)
+
+    def drop(self, k, how, msg=None):
+        """the connection ends: eof (the client closes, at whatever byte it is), hdr (illegal length field),
+        or a message the daemon refuses (bad / state / close / pid)"""
+        if not self.conn_alive(k):
+            return False
+        c = self.cl[k]
+        if c["kind"] == "lib" or how == "eof" or (c.get("pend") and how == "hdr"):
+            return self.disconnect(k)
+        if how == "hdr":
+            if self.blocked(c):
+                self.read_all(k)
+            self.ses.send_illegal_header(c["raw"], msg)
+        else:
+            self.send_message(k, msg)
+        if self._dropped(c) is None:
+            return self.disconnect(k)       # (a message the daemon took after all: the schedule says the client is gone)
+        c["raw"].close()
+        c["gone"] = True
+        return True
+
     def service(self, k, names, strict, reset):
         if not self.conn_alive(k):
             return False
         c = self.cl[k]
         mask = mask_of(names)
         p = self.d.pos()
+        if c["kind"] == "raw" and (c.get("pend") or c.get("wait")):
+            if c.get("wait") and not c.get("pend"):
+                return False                # (not connected yet: a SERVICE_REQ would be refused - that is Drop "state")
+            return self.send_message(k, self.lay.service_req(mask, strict=strict - 1, reset=1 if reset else 0))
         if c["kind"] == "lib":
             self.lib.call(c["slot"], "U %d %d 1 %d %d" % (c["slot"], 1 if reset else 0, mask, strict - 1))
             # the library discards the frames it had not read while it waits for the confirmation
@@ -175,7 +284,7 @@ class Run:
             # the specification takes a service request as one step - one after the other here
             self.tick()
             return self.service(k, names, strict, reset)
-        if not self.conn_alive(k) or self.cl[k]["kind"] != "raw" or not c19.device_open(self.d):
+        if not self.conn_alive(k) or self.cl[k]["kind"] != "raw" or not c19.device_open(self.d) or self.stuck(k) or self.cl[k].get("wait"):
             return False
         c = self.cl[k]
         if self.blocked(c):
@@ -209,6 +318,7 @@ class Run:
         c = self.cl[k]
         if c["kind"] == "lib":
             p = self.d.pos()
+            self.ses.closed_acc[c["acc"]] = p
             self.lib.cmd("X %d" % c["slot"])
             self.lib.cmd("D %d" % c["slot"])
             fd = c["fd"]
@@ -276,13 +386,26 @@ class Run:
         for k in list(self.cl):
             if self.conn_alive(k):
                 self.read_all(k)
-                kept.append(self.cl[k]["fd"])
+                if not self.stuck(k):       # (nothing is forwarded to a client in the middle of a message of its own)
+                    kept.append(self.cl[k]["fd"])
         return kept
+
+    def note_observations(self):
+        """what the raw clients received besides frames (replies, token indications): the observation records of
+        Trace_ProxyConn; each connection's records are placed in front of its removal by Session.conn_log"""
+        for c in self.ses.conns:
+            for m in c.msgs[c.seen:]:
+                if m["t"] in proxy.CHANNEL_OBS:
+                    self.ses.obs.append((1 << 60, c, dict(e="obs", c=c.fd, m=proxy.CHANNEL_OBS[m["t"]], ind=int(m.get("token_ind", 0) != 0))))
+            c.seen = len(c.msgs)
 
     def stop(self):
         try:
             if self.shutdown:
                 self.d.stop()   # SIGTERM with clients connected and frames queued
+            for c in self.cl_all:
+                if c["kind"] == "lib":
+                    self.ses.closed_acc.setdefault(c["acc"], self.d.pos())
             self.lib.stop()
         finally:
             self.ses.stop()
@@ -392,12 +515,23 @@ class Run:
                 mine = [cl for cl in e["clients"] if cl[0] == fd]
                 if mine and mine[0][1] == 1:
                     st["pend"] = r
+                    # WAIT_CLOSE: a CONNECT_REQ of the right protocol version was processed (service update) and refused
+                    st["rej"] = r["t"] == MSG["CONNECT_REQ"] and bool(r["a"]) and r["a"][5] == self.lay.l["compat_version"]
                     continue
                 if r["t"] == MSG["CONNECT_REQ"]:
                     emit_with_state(dict(e="connect", c=fd, srv=names(r["a"][0]), strict=r["a"][1], st=dump(e)), i)
                 elif r["t"] == MSG["SERVICE_REQ"]:
                     emit_with_state(dict(e="service", c=fd, srv=names(r["a"][0]), strict=r["a"][1], reset=bool(r["a"][2]),
                                          discard=(kind.get(st["acc"]) == "lib"), st=dump(e)), i)
+                else:
+                    # a request that leaves the data path alone (token, notify, ioctl, suspend, reclaim confirmation)
+                    emit_with_state(dict(e="other", c=fd, t=r["t"], st=dump(e)), i)
+            elif k == "part":
+                if fd in cur:
+                    emit(dict(e="part", c=fd, off=e["off"]), i)
+            elif k == "overflow":
+                if not out or out[-1].get("e") != "overflow":
+                    emit(dict(e="overflow"), i)
             elif k == "closing":
                 dropping = fd
             elif k == "gone":
@@ -405,7 +539,10 @@ class Run:
                 st = cur.pop(fd, None)
                 if st is not None:
                     flush(i, st["acc"])
-                emit_with_state(dict(e="drop", c=fd, st=dump(e)), i)
+                if st is not None and st.get("rej"):
+                    emit_with_state(dict(e="reject", c=fd, st=dump(e)), i)
+                else:
+                    emit_with_state(dict(e="drop", c=fd, st=dump(e)), i)
             elif k == "cap":
                 emit(dict(e="tick", id=e["id"], lines=names(e["devsrv"]), n=e["n"], refs=e["refs"], forced=forced,
                           blk=(last_idle or {}).get("w", []), quiet=was_idle), i)
@@ -416,15 +553,83 @@ class Run:
         return out, src
 
 
+def flow_message(lay, st, rnd):
+    """bytes of the message a step of a faulty-client schedule stands for (None: not a message step)"""
+    a = st["a"]
+    if a == "Connect":
+        return lay.connect_req(services=mask_of(st["srv"]), strict=st["l"] - 1, buffers=1, scanning=625)
+    if a == "ConnectRej":
+        return lay.connect_req(services=0x100, strict=0, buffers=1, scanning=625)
+    if a == "ServiceReq":
+        return lay.service_req(mask_of(st["srv"]), strict=st["l"] - 1, reset=1 if st["reset"] else 0)
+    if a == "Other":
+        m = st["m"]
+        if m == "suspend":
+            return lay.suspend_req()
+        if m == "ioctl":
+            return lay.ioctl_req(rnd.choice([0x80685600, 0xC02C5638, 0x12345678]), bytes(rnd.choice([0, 4, 44])))
+        if m == "reclaimcnf":
+            return lay.reclaim_cnf()
+        if m == "token":
+            return lay.token_req(st.get("p", 2), 1 if st.get("v") else 0, sub_prio=rnd.choice([0x10, 0x20]), min_duration=rnd.choice([0, 100000]))
+        f = 0
+        for n in st.get("f", []):
+            f |= dict(RELEASE=proxy.CHN_RELEASE, TOKEN=proxy.CHN_TOKEN)[n]     # (never FLUSH: it empties everybody's queue by design)
+        return lay.notify_req(f, scanning=0)
+    if a == "Drop":
+        how = st["how"]
+        if how == "bad":
+            return rnd.choice(c19.bad_messages(lay, rnd))
+        if how == "state":
+            if st.get("st") == "fwd":
+                return rnd.choice([lay.connect_req(services=proxy.VBI_SLICED_TELETEXT_B), lay.pid_req()])
+            return rnd.choice([lay.service_req(proxy.VBI_SLICED_TELETEXT_B), lay.token_req(1, 1), lay.notify_req(2), lay.ioctl_req(0x80685600, bytes(4))])
+        if how == "close":
+            return lay.close_req()
+        if how == "pid":
+            return lay.pid_req()
+        if how == "hdr":
+            return rnd.choice(c19.illegal_headers(lay))
+    return None
+
+
 def execute(run, steps, seed):
     """one schedule; returns the descriptors of the clients that have read everything at its end"""
     rnd = random.Random(seed)
     kinds = {}
-    for st in steps:
+    raw_only = {s.get("c") for s in steps if s["a"] in ("Partial", "Other", "Drop", "ConnectRej", "TickService")}
+    for n, st in enumerate(steps):
         a, k = st["a"], st.get("c")
         if k is not None and k not in kinds:
-            kinds[k] = st.get("kind") or rnd.choice(["lib", "raw"])
-        if a == "Connect":
+            kinds[k] = st.get("kind") or ("raw" if k in raw_only else rnd.choice(["lib", "raw"]))
+        if a == "Accept":
+            if kinds[k] == "raw":           # (a library client connects and sends its CONNECT_REQ in one call)
+                run.accept(k)
+        elif a == "Partial":
+            # a part of the message of this client's next message step (or of a notify request, if it has none)
+            if run.conn_alive(k) and run.cl[k]["kind"] == "raw":
+                if run.stuck(k):
+                    msg, sent = run.cl[k]["pend"]
+                else:
+                    nxt = next((x for x in steps[n + 1:] if x.get("c") == k and x["a"] != "Partial" and x["a"] != "Read"), None)
+                    msg = (flow_message(run.lay, nxt, rnd) if nxt and not (nxt["a"] == "Drop" and nxt["how"] in ("eof", "hdr")) else None) \
+                        or run.lay.notify_req(0)
+                    sent = 0
+                if st.get("upto"):
+                    upto = st["upto"]
+                elif st.get("ph") == "hdr":
+                    upto = rnd.randint(sent + 1, 7) if sent < 7 else 0
+                else:
+                    upto = rnd.randint(max(8, sent + 1), len(msg) - 1) if len(msg) - 1 >= max(8, sent + 1) else 0
+                if upto:
+                    run.partial(k, msg, upto)
+        elif a == "Other":
+            run.other(k, flow_message(run.lay, st, rnd))
+        elif a == "Drop":
+            run.drop(k, st["how"], flow_message(run.lay, st, rnd))
+        elif a == "ConnectRej":
+            run.connect(k, "raw", [], 1, reject=True)
+        elif a == "Connect":
             run.connect(k, kinds[k], st["srv"], st["l"])
         elif a == "ServiceReq":
             run.service(k, st["srv"], st["l"], st["reset"])
@@ -491,7 +696,7 @@ def thin(rnd, steps):
 
 # ------------------------------------------------------------------------------------------------ validation
 
-def validate(ctx, logs, label, thread):
+def validate(ctx, logs, label, thread, buffers=1):
     path = os.path.join(ctx.scratch, "queue-%s.ndjson" % label)
     where = []
     with open(path, "w") as f:
@@ -502,7 +707,8 @@ def validate(ctx, logs, label, thread):
     if os.environ.get("VERIF_KEEP"):
         import shutil
         shutil.copy(path, os.environ["VERIF_KEEP"])
-    ok, tr = tlc.validate_trace("Trace_ProxyQueue", "Trace_ProxyQueue_thr" if thread else "Trace_ProxyQueue", path, timeout=2400, heap="6g")
+    cfg = ("Trace_ProxyQueue_thr" if thread else "Trace_ProxyQueue") + ("" if buffers == 1 else "_b%d" % buffers)
+    ok, tr = tlc.validate_trace("Trace_ProxyQueue", cfg, path, timeout=2400, heap="6g")
     ctx.add_mc(tr, "TV " + label)
     if ok:
         return True
@@ -524,14 +730,17 @@ def validate(ctx, logs, label, thread):
     return False
 
 
-def run_schedules(ctx, lay, scheds, label, thread=False, per_daemon=12, variant="asan"):
-    logs = []
+def run_schedules(ctx, lay, scheds, label, thread=False, per_daemon=12, variant="asan", buffers=1, conn_tv=False, nontrivial=None,
+                  conn_logs=None):
+    """execute the schedules (name, steps, seed) on fresh daemons (several per process) and validate what was recorded
+    with Trace_ProxyQueue; conn_tv: the same runs are validated by Trace_ProxyConn as well (faulty-client schedules)"""
+    logs, clogs = [], []
     clean = True
     b = 0
     nfail = 0
     while b < len(scheds):
         batch = scheds[b:b + per_daemon]
-        run = Run(lay, thread, variant)
+        run = Run(lay, thread, variant, buffers)
         spans, ends = [], []
         failed = None
         ndone = 0
@@ -549,28 +758,45 @@ def run_schedules(ctx, lay, scheds, label, thread=False, per_daemon=12, variant=
                     ends.append((run.d.pos(), kept))
                 except proxy.DaemonDied:
                     failed = (j, "died")
+                except proxy.Overflow as ex:
+                    failed = (j, "overflow: %s" % ex)
+                except proxy.DeviceClosed as ex:
+                    failed = (j, "devclosed: %s" % ex)
                 except proxy.Hang as ex:
                     failed = (j, "hang: %s" % ex)
                 run.cl = {}
                 if failed:
                     break
         finally:
+            run.note_observations()
             run.stop()
 
         def rp_of(j, batch=batch):
-            return dict(kind="schedule", thread=thread, name=batch[j][0], steps=batch[j][1], seed=batch[j][2])
+            return dict(kind="flow" if conn_tv else "schedule", thread=thread, buffers=buffers, name=batch[j][0], steps=batch[j][1],
+                        seed=batch[j][2])
 
         recs, src = run.queue_log(ends)
 
         def info(i, spans=spans, src=src, rp_of=rp_of):
             return rp_of(max([k for k, p0 in enumerate(spans) if p0 <= src[i]] or [0]))
         logs.append((recs, info))
+        if conn_tv:
+            crecs, csrc = run.ses.conn_log()
+            clogs.append((crecs, lambda i, spans=spans, csrc=csrc, rp_of=rp_of:
+                          rp_of(max([k for k, p0 in enumerate(spans) if p0 <= csrc[i]] or [0]))))
         rp = rp_of(failed[0]) if failed else rp_of(ndone - 1)
+        if failed and failed[1].startswith("overflow"):
+            ctx.violate("stall", "overflow:%s" % rp["name"].split("#")[0],
+                        "schedule %s (%s): %s - no frame is read from the device any more, no client gets data" % (rp["name"], label, failed[1][10:]), rp)
+            clean = False
+        if failed and failed[1].startswith("devclosed"):
+            ctx.violate("stall", "thread:devclosed", "schedule %s (%s): %s - no client gets data any more" % (rp["name"], label, failed[1][11:]), rp)
+            clean = False
         for key, detail in run.problems[:5]:
             ctx.violate("content", key, detail, rp)
             clean = False
         if failed and failed[1].startswith("hang"):
-            if not confirm_hang(lay, rp, variant):
+            if not confirm_hang(lay, rp, variant, buffers):
                 raise tlc.ToolFailure("non-reproducible hang in %s: %s" % (rp["name"], failed[1]))
             ctx.violate("hang", "hang:%s" % rp["name"].split("#")[0], failed[1], rp)
             clean = False
@@ -588,16 +814,21 @@ def run_schedules(ctx, lay, scheds, label, thread=False, per_daemon=12, variant=
             nfail += 1
             if nfail >= 4:
                 break
-    ok = validate(ctx, logs, label, thread)
+    ok = validate(ctx, logs, label, thread, buffers)
+    if conn_tv and conn_logs is not None:
+        conn_logs += clogs              # the caller validates the connection-layer logs of several passes in one TLC run
+    elif conn_tv:
+        ok = c19.validate(ctx, clogs, label + "-conn") and ok
     if ok and clean:
         ctx.validated(len(scheds))
     for name, steps, seed in scheds:
-        ctx.count_case([name.split("#")[0], thread, steps], nontrivial=sum(1 for s in steps if s["a"] in ("Tick", "Burst")) >= 2)
+        ctx.count_case([name.split("#")[0], thread, buffers, steps],
+                       nontrivial=(nontrivial or (lambda st: sum(1 for s in st if s["a"] in ("Tick", "Burst")) >= 2))(steps))
     return ok and clean
 
 
-def confirm_hang(lay, rp, variant="asan"):
-    run = Run(lay, rp.get("thread", False), variant)
+def confirm_hang(lay, rp, variant="asan", buffers=1):
+    run = Run(lay, rp.get("thread", False), variant, buffers)
     try:
         execute(run, [dict(s) for s in rp["steps"]], rp["seed"])
         return False
@@ -605,6 +836,96 @@ def confirm_hang(lay, rp, variant="asan"):
         return True
     finally:
         run.stop()
+
+
+# ------------------------------------------------------------------------------------------------ faulty client x frame flow
+
+def flow_nontrivial(steps):
+    """a faulty-client schedule exercises the property if frames are captured while some client is silent in the middle
+    of a message, never connected, gone in the middle, or stalled"""
+    return sum(1 for s in steps if s["a"] in ("Tick", "Burst", "TickService")) >= 2 and \
+        any(s["a"] in ("Partial", "Drop", "Accept", "Other", "ConnectRej", "TickService") for s in steps)
+
+
+def flow_walks(ctx, n, cfg="Gen_ProxyFlow"):
+    """schedules generated from the model: TLC random walks through ProxyFlow (ProxyConn x ProxyQueue) in which frames
+    were taken away from a client that is silent in the middle of a message (Gen_ProxyFlow prints only those)"""
+    g = tlc.run("Gen_ProxyFlow", cfg, timeout=900, workers=4, simulate=max(8, 3 * n), depth=110, seed=ctx.seed, collect_tr=True,
+                heap="2g", max_tr=200 * n)
+    ctx.add_mc(g, "GEN " + cfg)
+    out, seen = [], set()
+    for t in g.tr:
+        st = [{k: v for k, v in s.items() if k != "k"} for s in t[:-1]]      # (every successor of the last state is printed)
+        h = json.dumps(st, sort_keys=True)
+        if h in seen or len(out) >= n:
+            continue
+        seen.add(h)
+        out.append(("flow-walk#%d" % len(out), st))
+    if len(out) < min(n, 3):
+        raise tlc.ToolFailure("Gen_ProxyFlow: only %d of the random walks reached a client that loses frames in the middle of a message" % len(out))
+    return out
+
+
+def flow_directed(base=1):
+    """the neighbouring cases, each with two witnesses of different service sets (W1 raw, W2 through the client library)
+    that read every frame, and more frames than the daemon has buffers (base + one per connection)"""
+    W1 = dict(a="Connect", c=1, srv=["ttx"], l=1, kind="raw")
+    W2 = dict(a="Connect", c=2, srv=["wss", "vps"], l=2, kind="lib")
+
+    def ticks(n, readers=(1, 2)):
+        out = []
+        for _ in range(n):
+            out.append(dict(a="Tick"))
+            out += [dict(a="ReadAll", c=k) for k in readers]
+        return out
+
+    def many(nconn):
+        return base + nconn + 3         # more frames than there are buffers
+    F = dict(a="Connect", c=3, srv=["vps", "cc"], l=1, kind="raw")
+    G = dict(a="Connect", c=4, srv=["ttx", "wss"], l=0, kind="raw")
+    A3, A4 = dict(a="Accept", c=3), dict(a="Accept", c=4)
+    out = []
+    # a part of the header / the header and a part of the body, silence for many frames, then the rest
+    for k in (1, 4, 7):
+        out.append(("stuck-hdr%d" % k, [W1, W2, A3, F] + ticks(2) + [dict(a="Partial", c=3, upto=k)] + ticks(many(3)) +
+                    [dict(a="Other", c=3, m="notify", f=[])] + ticks(2, (1, 2, 3))))
+    out.append(("stuck-body", [W1, W2, A3, F] + ticks(1) + [dict(a="Partial", c=3, upto=11)] + ticks(many(3)) +
+                [dict(a="ServiceReq", c=3, srv=["wss"], l=1, reset=True)] + ticks(2, (1, 2, 3))))
+    out.append(("stuck-hdr-body", [W1, W2, A3, F] + ticks(1) + [dict(a="Partial", c=3, upto=3)] + ticks(2) + [dict(a="Partial", c=3, upto=8)] +
+                ticks(2) + [dict(a="Partial", c=3, upto=20)] + ticks(many(3)) + [dict(a="Other", c=3, m="token", p=2, v=False)] + ticks(2, (1, 2, 3))))
+    # ... then a disconnect at that byte / the rest is garbage / the message is one the daemon refuses
+    out.append(("stuck-eof", [W1, W2, A3, F] + ticks(1) + [dict(a="Partial", c=3, upto=5)] + ticks(many(3)) + [dict(a="Drop", c=3, how="eof")] + ticks(2)))
+    out.append(("stuck-bad", [W1, W2, A3, F] + ticks(1) + [dict(a="Partial", c=3, ph="hdr")] + ticks(many(3)) + [dict(a="Drop", c=3, how="bad")] + ticks(2)))
+    out.append(("stuck-state", [W1, W2, A3, F] + ticks(1) + [dict(a="Partial", c=3, ph="body")] + ticks(many(3)) +
+                [dict(a="Drop", c=3, how="state", st="fwd")] + ticks(2)))
+    # connected, CONNECT_REQ never sent / sent in part
+    out.append(("never-connects", [W1, W2, A3] + ticks(many(3)) + [dict(a="Partial", c=3, upto=6)] + ticks(many(3)) + [F] + ticks(2, (1, 2, 3)) +
+                [A4] + ticks(2, (1, 2, 3)) + [dict(a="Drop", c=4, how="eof")] + ticks(1, (1, 2, 3))))
+    # ... while another client is silent in the middle of a message (the connection without CONNECT_REQ counts for the buffers)
+    out.append(("stuck-while-waiting", [W1, W2, A3, A4, F] + ticks(1) + [dict(a="Partial", c=3, upto=6)] + ticks(many(4)) +
+                [dict(a="Partial", c=4, upto=3)] + ticks(3) + [dict(a="Drop", c=4, how="eof")] + ticks(3) +
+                [dict(a="Other", c=3, m="notify", f=[])] + ticks(2, (1, 2, 3))))
+    # all services removed while a frame is queued for the client (frame and request in one pass of the main loop)
+    out.append(("service-none-queued", [W1, W2, A3, F] + ticks(2, (1, 2, 3)) + [dict(a="TickService", c=3, srv=[], l=1, reset=True), dict(a="ReadAll", c=1),
+                dict(a="ReadAll", c=2)] + ticks(3) + [dict(a="TickService", c=3, srv=["ttx"], l=1, reset=False), dict(a="ReadAll", c=1), dict(a="ReadAll", c=2)] +
+                ticks(2, (1, 2, 3))))
+    # the token holder (a stalled reader with frames queued) disconnects while frames flow; the token goes to the next one
+    # (tokens are scheduled only while every client is at background priority: all four are raw clients that say so)
+    out.append(("token-holder-leaves", [W1, dict(W2, kind="raw"), A3, F, A4, G, dict(a="Other", c=1, m="token", p=1, v=False),
+                dict(a="Other", c=2, m="token", p=1, v=False), dict(a="Other", c=3, m="token", p=1, v=True), dict(a="Other", c=4, m="token", p=1, v=True)] +
+                ticks(many(4), (1, 2, 4)) + [dict(a="Drop", c=3, how="eof")] + ticks(3, (1, 2, 4)) +
+                [dict(a="Other", c=4, m="notify", f=["TOKEN"]), dict(a="Drop", c=4, how="close")] + ticks(2)))
+    # two faulty clients at once, silent at different bytes; one goes on, the other leaves
+    out.append(("two-stuck", [W1, W2, A3, F, A4, G] + ticks(1) + [dict(a="Partial", c=3, upto=2), dict(a="Partial", c=4, upto=13)] + ticks(many(4)) +
+                [dict(a="Other", c=4, m="suspend")] + ticks(2, (1, 2, 4)) + [dict(a="Drop", c=3, how="eof")] + ticks(2, (1, 2, 4))))
+    # a slow reader (blocked write) for many frames, then it closes while the daemon is in the middle of writing a frame to it
+    big = dict(a="Connect", c=3, srv=["ttx", "vps", "cc", "wss"], l=1, kind="raw")
+    out.append(("close-mid-write", [W1, W2, A3, big] + ticks(many(3) + 8) + [dict(a="Drop", c=3, how="eof")] + ticks(3)))
+    out.append(("slow-reader", [W1, W2, A3, big] + ticks(many(3) + 8) + [dict(a="ReadAll", c=3)] + ticks(2, (1, 2, 3))))
+    # a slow reader that is also silent in the middle of a message
+    out.append(("slow-and-stuck", [W1, W2, A3, big] + ticks(2) + [dict(a="Partial", c=3, upto=9)] + ticks(many(3)) + [dict(a="ReadAll", c=3)] +
+                [dict(a="Other", c=3, m="ioctl")] + ticks(2, (1, 2, 3))))
+    return out
 
 
 # ------------------------------------------------------------------------------------------------ run
@@ -622,18 +943,20 @@ def run(ctx):
     lay = proxy.Layout(drv)
 
     # ---- model checking
-    for cfg, to in ([("MC_ProxyQueue_q", 600), ("MC_ProxyQueue_thr", 600)] if quick else
-                    [("MC_ProxyQueue_q", 600), ("MC_ProxyQueue_thr", 600), ("MC_ProxyQueue_t", 900), ("MC_ProxyQueue_tthr", 900),
+    for cfg, to in ([("MC_ProxyQueue_q", 600), ("MC_ProxyQueue_thr", 600), ("MC_ProxyQueue_stuck", 600), ("MC_ProxyQueue_stuckthr", 600)] if quick else
+                    [("MC_ProxyQueue_q", 600), ("MC_ProxyQueue_thr", 600), ("MC_ProxyQueue_stuck", 600), ("MC_ProxyQueue_stuckthr", 600),
+                     ("MC_ProxyQueue_t", 900), ("MC_ProxyQueue_tthr", 900),
                      ("MC_ProxyQueue_a", 1500), ("MC_ProxyQueue_lvl", 1500), ("MC_ProxyQueue_t3", 1800)]):
         r = tlc.run("ProxyQueue", cfg, timeout=to, workers=8, heap="8g", coverage=not quick)
         ctx.add_mc(r, cfg)
         if r.violation:
             ctx.violate("mc", "mc:%s:%s" % (r.violation["kind"], r.violation["name"]), r.violation["text"][:3000])
-    for cfg, prop in (("MC_ProxyQueue_reach", "NeverLost"),):
+    for cfg, prop in (("MC_ProxyQueue_reach", "NeverLost"), ("MC_ProxyQueue_reachstuck", "NeverStuckLoses")):
         r = tlc.run("ProxyQueue", cfg, timeout=600, workers=8, heap="6g")
         ctx.add_mc(r, cfg)
-        if not r.violation:
-            raise tlc.ToolFailure("%s: no frame is ever lost in the model (the loss properties would be vacuous)" % cfg)
+        if not r.violation or r.violation["name"] != prop:
+            raise tlc.ToolFailure("%s: %s holds in the model - no frame is ever lost / taken away from a client in the middle of a "
+                                  "message (the loss properties would be vacuous)" % (cfg, prop))
 
     # ---- schedules
     rnd = random.Random(ctx.seed * 104729 + 18)
@@ -673,6 +996,18 @@ def run(ctx):
     ctx.sample(dict(source="seeded schedule", steps=scheds[-1][1][:16]))
     run_schedules(ctx, lay, scheds if not quick else scheds[0:-2:2] + scheds[-2:], "select", thread=False)
     run_schedules(ctx, lay, scheds if not quick else scheds[1:-2:2] + scheds[-2:], "thread", thread=True)
+    # ---- clients that misbehave while frames flow (C19 runs the full set): a client silent in the middle of a message, one that
+    # never sends its CONNECT_REQ, one that leaves in the middle of a frame written to it ... - the others get every frame
+    want = ("stuck-hdr4", "stuck-body", "two-stuck", "never-connects", "stuck-while-waiting", "service-none-queued", "close-mid-write", "slow-and-stuck")
+    flow = flow_walks(ctx, 3 if quick else 60) + [x for x in flow_directed(1) if not quick or x[0] in want]
+    flow = [(nm, st, ctx.seed * 7919 + 100000 + i) for i, (nm, st) in enumerate(flow)]
+    ctx.sample(dict(source="TLC random walk through ProxyFlow (a client silent in the middle of a message)", steps=flow[0][1][:20]))
+    # (quick: Trace_ProxyQueue only - the connection layer's view of the same runs is C19's business)
+    run_schedules(ctx, lay, flow if not quick else flow[0::2], "flow", thread=False, conn_tv=not quick, nontrivial=flow_nontrivial)
+    run_schedules(ctx, lay, flow if not quick else flow[1::2], "flow-thread", thread=True, conn_tv=not quick, nontrivial=flow_nontrivial)
+    if not quick:
+        b8 = [(nm, st, ctx.seed * 7919 + 200000 + i) for i, (nm, st) in enumerate(flow_directed(8))]
+        run_schedules(ctx, lay, b8, "flow-b8", thread=False, conn_tv=True, buffers=8, nontrivial=flow_nontrivial)
     ctx.cov["exhaustive"] = False
 
 
@@ -681,4 +1016,5 @@ def replay(ctx, rp):
     build.build_daemon()
     lay = proxy.Layout(drv)
     r = rp["replay"]
-    run_schedules(ctx, lay, [(r["name"], [dict(s) for s in r["steps"]], r["seed"])], "replay", thread=r.get("thread", False))
+    run_schedules(ctx, lay, [(r["name"], [dict(s) for s in r["steps"]], r["seed"])], "replay", thread=r.get("thread", False),
+                  buffers=r.get("buffers", 1), conn_tv=(r.get("kind") == "flow"))
